@@ -125,6 +125,18 @@ bool FilePersister::initialise(const f8String& dbDir, const f8String& dbFname, b
 			}
 			else if (blrd == 0)
 				break; // eof
+			else if (blrd != static_cast<ssize_t>(sizeof(IPrec)))
+			{
+				// torn last record (crash inside the index write): drop it so that later appends stay aligned
+				glout_warn << "Warning: incomplete index record at end of: " << _dbIname << ". Ignoring.";
+				const off_t whole(lseek(_iod, 0, SEEK_CUR) - blrd);
+				if (whole < 0 || ftruncate(_iod, whole) < 0 || lseek(_iod, whole, SEEK_SET) < 0)
+				{
+					glout_error << "Error: could not trim database index: " << _dbIname << " (" << strerror(errno) << ')';
+					return false;
+				}
+				break;
+			}
 
 			if (iprec._seq == 0)
 			{
